@@ -259,6 +259,7 @@ class ImplWorld:
 
     def __init__(self) -> None:
         self.slots: list[Any] = [None] * NSLOTS
+        self.snaps: list[Any] = [None, None]  # snapshots `g.defaults.copy()` (Defaults objects)
 
     # -- observation (side-effect free reads of the public API)
     @staticmethod
@@ -301,7 +302,18 @@ class ImplWorld:
         op = t[0]
         if op == "reset":
             self.slots = [None] * NSLOTS
+            self.snaps = [None, None]
             return "ok"
+        if op == "defsnap":
+            g = self.slots[int(t[1])]
+            if g is None:
+                return "bad-slot"
+            self.snaps[int(t[2])] = g.defaults.copy()
+            return "ok"
+        if op == "defrestore" and (self.slots[int(t[1])] is None or self.snaps[int(t[2])] is None):
+            return "bad-slot"
+        if op in ("defupdfrom", "defassignfrom") and (self.slots[int(t[1])] is None or self.slots[int(t[2])] is None):
+            return "bad-slot"
         if op == "new":
             self.slots[int(t[1])] = (SimpleGrammar if t[2] == "S" else JSONGrammar)(f"g{t[1]}")
             return "ok"
@@ -358,6 +370,34 @@ class ImplWorld:
                 g.required_names.add(t[2])
             elif op == "reqdisc":
                 g.required_names.discard(t[2])
+            elif op == "defupd":
+                g.defaults.update({k: int(v) for k, v in parse_kvs(t[2])})
+            elif op == "defupdfrom":
+                g.defaults.update(self.slots[int(t[2])].defaults)
+            elif op == "defassignfrom":
+                g.defaults = self.slots[int(t[2])].defaults
+            elif op == "defclear":
+                g.defaults.clear()
+            elif op == "defrestore":
+                if t[3] == "u":
+                    g.defaults.update(self.snaps[int(t[2])])
+                else:
+                    g.defaults = self.snaps[int(t[2])]
+            elif op == "reqremove":
+                g.required_names.remove(t[2])
+            elif op == "reqclear":
+                g.required_names.clear()
+            elif op == "requpd":
+                rn = g.required_names
+                rn |= parse_list(t[2])
+            elif op == "reqsub":
+                rn = g.required_names
+                rn -= set(parse_list(t[2]))
+            elif op == "reqand":
+                rn = g.required_names
+                rn &= set(parse_list(t[2]))
+            elif op == "reqassign":
+                g.required_names = set(parse_list(t[2]))
             elif op == "val":
                 return "v=1" if accepts(g, {k: value_of(v) for k, v in parse_kvs(t[2])}) else "v=0"
             elif op == "qschema":
@@ -614,6 +654,8 @@ def targets_of(line: str) -> set[int]:
         return set(range(NSLOTS))
     if op in ("copy", "pickle", "dcopy"):
         return {int(t[2])}
+    if op == "defsnap":
+        return set()
     return {int(t[1])}
 
 
@@ -625,12 +667,26 @@ def expected_exception(w: ImplWorld, line: str) -> str | None:
 
     t = line.split()
     op = t[0]
-    if op in ("reset", "new", "clear", "copy", "pickle", "dcopy", "deldef", "reqdisc"):
+    if op in ("reset", "new", "clear", "copy", "pickle", "dcopy", "deldef", "reqdisc", "defclear", "reqclear", "reqsub", "reqand", "defsnap"):
         return None
     g = w.slots[int(t[1])]
     if g is None:
         return "?"
     keys = set(g.keys())
+    if op == "defupd":
+        return None if {k for k, _ in parse_kvs(t[2])} <= keys else "E:key"
+    if op in ("defupdfrom", "defassignfrom"):
+        src = w.slots[int(t[2])]
+        return "?" if src is None else (None if set(src.defaults) <= keys else "E:key")
+    if op == "defrestore":
+        sn = w.snaps[int(t[2])]
+        return "?" if sn is None else (None if set(sn) <= keys else "E:key")
+    if op == "reqremove":
+        return None if t[2] in set(g.required_names) else "E:key"
+    if op == "requpd":
+        return None if set(parse_list(t[2])) <= keys else "E:key"
+    if op == "reqassign":
+        return "E:attr"
     simple = isinstance(g, SimpleGrammar)
     if op in ("names", "types", "data"):
         args = parse_list(t[2]) if op == "names" else parse_kvs(t[2])
@@ -704,7 +760,8 @@ def execute(lines: list[str], seed_key: str, heavy: bool, plain: list[str] | Non
             if i not in allowed and before[i] != after[i]:
                 key = f"query-impure:{op}" if op in QUERIES else f"frame:{op}"
                 bad.append((key, f"{where} changed slot {i}: {before[i]} -> {after[i]}"))
-        if st.startswith("E:") and op not in QUERIES:
+        partial = op in ("defupd", "defupdfrom", "requpd") or (op == "defrestore" and t[3] == "u")
+        if st.startswith("E:") and op not in QUERIES and not partial:
             for i in allowed:
                 if before[i] != after[i]:
                     bad.append((f"failed-op-changed-state:{op}", f"{where} raised {st} but changed slot {i}: {before[i]} -> {after[i]}"))
@@ -934,15 +991,18 @@ class Gen:
             merge = "0"
         weights = {"names": 4, "types": 4, "data": 3, "schema": 3, "upd": 4, "restrict": 2, "rename": 3, "del": 3,
                    "addns": 2, "clear": 1, "copy": 3, "pickle": 3, "setdef": 3, "deldef": 1, "defaults": 1,
-                   "reqadd": 2, "reqdisc": 3, "new": 1}
+                   "reqadd": 2, "reqdisc": 3, "new": 1, "defupd": 1, "defupdfrom": 2, "defassignfrom": 1, "defclear": 1,
+                   "defsnap": 2, "defrestore": 2, "reqremove": 1, "reqclear": 1, "requpd": 1, "reqsub": 1, "reqand": 1, "reqassign": 1}
         if shared:
             weights["schema"] = 0
         if self.focus == "ns":
             weights.update({"addns": 8, "upd": 8, "copy": 5, "pickle": 3})
         elif self.focus == "required":
-            weights.update({"reqadd": 6, "reqdisc": 8, "rename": 5, "del": 5, "restrict": 4, "copy": 5, "pickle": 5, "schema": 5 if not shared else 0})
+            weights.update({"reqadd": 6, "reqdisc": 8, "rename": 5, "del": 5, "restrict": 4, "copy": 5, "pickle": 5, "schema": 5 if not shared else 0,
+                            "reqremove": 4, "reqclear": 2, "requpd": 4, "reqsub": 3, "reqand": 3})
         elif self.focus == "defaults":
-            weights.update({"setdef": 8, "defaults": 4, "deldef": 3, "rename": 6, "upd": 6, "copy": 4})
+            weights.update({"setdef": 8, "defaults": 4, "deldef": 3, "rename": 6, "upd": 6, "copy": 4, "del": 5, "restrict": 3, "addns": 3,
+                            "defupd": 4, "defupdfrom": 6, "defassignfrom": 4, "defsnap": 6, "defrestore": 6, "defclear": 1})
         op = rng.pick([o for o, n in weights.items() for _ in range(n)])
         if op == "names":
             ns = self.some_names(s)
@@ -1015,6 +1075,30 @@ class Gen:
             if rng.chance(0.06):
                 ns.append(rng.pick(NAMES))
             self.add(f"defaults {s} " + (",".join(f"{n}={rng.randint(1, 9)}" for n in dict.fromkeys(ns)) or "-"))
+        elif op == "defupd":
+            ns = [n for n in self.keys.get(s, []) if rng.chance(0.5)]
+            if rng.chance(0.15):
+                ns.insert(rng.randint(0, len(ns)), rng.pick(NAMES))
+            self.add(f"defupd {s} " + (",".join(f"{n}={rng.randint(1, 9)}" for n in dict.fromkeys(ns)) or "-"))
+        elif op in ("defupdfrom", "defassignfrom"):
+            self.add(f"{op} {s} {rng.pick(live)}")
+        elif op == "defclear":
+            self.add(f"defclear {s}")
+        elif op == "defsnap":
+            self.add(f"defsnap {s} {rng.randint(0, 1)}")
+            self.snapped = True
+        elif op == "defrestore":
+            if not getattr(self, "snapped", False):
+                self.add(f"defsnap {s} 0")
+                self.snapped = True
+                return
+            self.add(f"defrestore {s} {rng.randint(0, 1)} {rng.pick('ua')}")
+        elif op == "reqremove":
+            self.add(f"reqremove {s} {self.existing(s, 0.2)}")
+        elif op == "reqclear":
+            self.add(f"reqclear {s}")
+        elif op in ("requpd", "reqsub", "reqand", "reqassign"):
+            self.add(f"{op} {s} {','.join(self.some_names(s, 1, 3, fresh=0.15)) or '-'}")
         elif op == "reqadd":
             self.add(f"reqadd {s} {self.existing(s)}")
         elif op == "reqdisc":
@@ -1097,7 +1181,7 @@ def neighbours(case: dict[str, Any], rng: common.Rng):
         for ln in ops:
             new.append(ln)
             t = ln.split()
-            if t[0] not in QUERIES and t[0] != "new":
+            if t[0] not in QUERIES and t[0] not in ("new", "defsnap", "defrestore"):
                 s = t[2] if t[0] in ("copy", "pickle", "dcopy") else t[1]
                 new.append(f"{q} {s}" + (" -" if q == "val" else ""))
         yield {"ops": new, "probe": False}
